@@ -949,6 +949,14 @@ class Init(InoSpec):
             ex.oblige("post[every descriptor still open and owned by the object]", flag[0])
         ex.oblige("post[not closed, no read in flight (J established)]", H.get((self.me.id, "_closed")) is False and H.get((self.me.id, "_is_reading")) is False)
         ex.oblige("post[exactly one watch installation]", len(self.adds) == 1)
+        if getattr(self, "check_mask", False):
+            # C11: whether the watch follows a symbolic link is the watch's follow_symlink setting - not a side effect of
+            # passing a filter-derived event mask (a filtered watch on a symlinked root must not see more than the unfiltered one)
+            m = H.get((self.me.id, "_event_mask"))
+            fs = TBool.unwrap(ex.scope.lookup("follow_symlink").vars["follow_symlink"])
+            bit = z3.BitVecVal(T.SPECIAL["IN_DONT_FOLLOW"], 32)
+            ex.oblige("post[IN_DONT_FOLLOW is in the kernel mask iff the watch does not follow symlinks, with or without a filter-derived mask]",
+                      ((TBits.unwrap(m) & bit) != 0) == z3.Not(fs) if m is not None else False)
 
     def post_raise(self, ex, exc, site):
         ex.oblige("raises[only OSError]", exc.cls == "OSError")
